@@ -25,6 +25,50 @@
 #include "indent.h"
 #include "cppParser.h"
 
+#include <algorithm>
+
+/**
+ * Adds all virtual base classes of the given class, direct or indirect, to
+ * the list.
+ */
+static void
+get_virtual_bases(const CPPStructType *type,
+                  std::vector<CPPStructType *> &bases) {
+  CPPStructType::Derivation::const_iterator di;
+  for (di = type->_derivation.begin(); di != type->_derivation.end(); ++di) {
+    CPPStructType *base = (*di)._base->as_struct_type();
+    if (base != nullptr) {
+      if ((*di)._is_virtual &&
+          std::find(bases.begin(), bases.end(), base) == bases.end()) {
+        bases.push_back(base);
+      }
+      get_virtual_bases(base, bases);
+    }
+  }
+}
+
+/**
+ * Fills the list with the base classes whose construction and destruction is
+ * up to the constructors and destructor of the given class: its non-virtual
+ * direct base classes and, unless the class is abstract (and therefore never
+ * the most derived class), all of its virtual base classes.
+ */
+static void
+get_constructed_bases(const CPPStructType *type,
+                      std::vector<CPPStructType *> &bases) {
+  if (!type->is_abstract()) {
+    get_virtual_bases(type, bases);
+  }
+
+  CPPStructType::Derivation::const_iterator di;
+  for (di = type->_derivation.begin(); di != type->_derivation.end(); ++di) {
+    CPPStructType *base = (*di)._base->as_struct_type();
+    if (base != nullptr && !(*di)._is_virtual) {
+      bases.push_back(base);
+    }
+  }
+}
+
 /**
  * Returns the type of the objects that make up a data member of the given
  * type: the element type if it is an array, the type itself otherwise.  A
@@ -619,16 +663,14 @@ is_default_constructible(CPPVisibility min_vis) const {
   }
 
   // Implicit or defaulted default constructor.  Check if it is deleted.
-  Derivation::const_iterator di;
-  for (di = _derivation.begin(); di != _derivation.end(); ++di) {
-    CPPStructType *base = (*di)._base->as_struct_type();
-    if (base != nullptr) {
-      // The constructor also needs the destructor of every subobject, to
-      // clean up in case of an exception.
-      if (!base->is_default_constructible(V_protected) ||
-          !base->is_destructible(V_protected)) {
-        return false;
-      }
+  std::vector<CPPStructType *> bases;
+  get_constructed_bases(this, bases);
+  for (CPPStructType *base : bases) {
+    // The constructor also needs the destructor of every subobject, to clean
+    // up in case of an exception.
+    if (!base->is_default_constructible(V_protected) ||
+        !base->is_destructible(V_protected)) {
+      return false;
     }
   }
 
@@ -715,14 +757,12 @@ is_copy_constructible(CPPVisibility min_vis) const {
   }
 
   // Implicit or defaulted copy constructor.  Check if it is deleted.
-  Derivation::const_iterator di;
-  for (di = _derivation.begin(); di != _derivation.end(); ++di) {
-    CPPStructType *base = (*di)._base->as_struct_type();
-    if (base != nullptr) {
-      if (!base->is_copy_constructible(V_protected) ||
-          !base->is_destructible(V_protected)) {
-        return false;
-      }
+  std::vector<CPPStructType *> bases;
+  get_constructed_bases(this, bases);
+  for (CPPStructType *base : bases) {
+    if (!base->is_copy_constructible(V_protected) ||
+        !base->is_destructible(V_protected)) {
+      return false;
     }
   }
 
@@ -890,10 +930,10 @@ is_destructible(CPPVisibility min_vis) const {
   }
 
   // Make sure all base classes are destructible.
-  Derivation::const_iterator di;
-  for (di = _derivation.begin(); di != _derivation.end(); ++di) {
-    CPPStructType *base = (*di)._base->as_struct_type();
-    if (base != nullptr && !base->is_destructible(V_protected)) {
+  std::vector<CPPStructType *> bases;
+  get_constructed_bases(this, bases);
+  for (CPPStructType *base : bases) {
+    if (!base->is_destructible(V_protected)) {
       return false;
     }
   }
